@@ -13,7 +13,8 @@ RULE = ("random RawMetadata dicts (random subset of the 30 fields in random inse
         "improvement round: three-valued component oracles (accept / documented rejection / other exception, the last expected to escape), "
         "reads of names that are not fields (AttributeError), dicts holding every field, Requires-Dist markers nested up to 300 deep, "
         "4300-digit versions, documents with repeated and mutated header lines through the composed parse_email+from_email model "
-        "(m.from_email_doc); with the findings registered: 4301-digit numbers and 1000-deep markers (escaping ValueError / RecursionError)")
+        "(m.from_email_doc); the same dicts with the oracles replaced by the component MODELS (m.from_raw_models); the heap model also on "
+        "validated objects and with the dict-valued field changed in place; with the findings registered: 4301-digit numbers and 1000-deep markers (escaping ValueError / RecursionError)")
 ASSUMPTIONS = [
     "values are well typed per the RawMetadata TypedDict (str / list[str] / dict[str,str]); None values and lone surrogates are outside the domain",
     "SpecifierSet, Requirement, canonicalize_license_expression, EmailMessage content-type parsing and the pathlib tests are oracles: "
@@ -21,7 +22,9 @@ ASSUMPTIONS = [
     "attribute reads range over the field names and over names that are no attribute of the Metadata class at all (methods and private "
     "attributes such as from_raw, _raw, __dict__ are not attribute reads of the property)",
 ]
-TRUSTED_EXTRA = ["oracle components (verdict + str() taken from the real component per value): packaging.specifiers.SpecifierSet, "
+TRUSTED_EXTRA = ["Version (the model's own parser, no digit limit: finding D10), canonicalize_name and the pathlib tests are modelled as total: that they raise "
+                 "nothing but their documented exception is not a Coq hypothesis, only sampled by the run",
+                 "oracle components (verdict + str() taken from the real component per value): packaging.specifiers.SpecifierSet, "
                  "packaging.requirements.Requirement, packaging.licenses.canonicalize_license_expression, "
                  "email.message.EmailMessage (content-type header parsing), pathlib.PurePosixPath/PureWindowsPath",
                  "str.lower() outside ASCII: only U+212A and U+0130 map into ASCII (checked over all code points on every run)"]
@@ -323,15 +326,24 @@ def streams(rng, tier):
             k = rng.choice(lf) if rng.random() < 0.8 else rng.choice(LIST_F)
             items = [rng.choice((ITEMS[k][0] + ITEMS[k][1][:2]) if k in ITEMS else PLAIN_S) for _ in range(rng.choice([0, 1, 2]))]
             if k in extra: extra[k] += items
-            if r < 0.45: ops.append("R" + (rng.choice(lf) if rng.random() < 0.7 else rng.choice(ALL_FIELDS + NON_ATTR[:3])))
+            if "project_urls" in d and rng.random() < 0.15:          # the dict-valued field: changed in place by the caller / the holder, or read
+                pairs = [x for l in rng.sample(["Home", "Docs", "", "{", "Bug Tracker"], rng.choice([0, 1, 2])) for x in (l, rng.choice(["http://x", "", "{x}"]))]
+                ops += rng.choice([["Rproject_urls"], ["\x1f".join(["u" + "project_urls"] + pairs)], ["Rproject_urls", "\x1f".join(["g" + "project_urls"] + pairs)]])
+            elif r < 0.45: ops.append("R" + (rng.choice(lf) if rng.random() < 0.7 else rng.choice(ALL_FIELDS + NON_ATTR[:3])))
             elif r < 0.6: ops.append("\x1f".join(["a" + k] + items))
             elif r < 0.68: ops.append("d" + k)
             elif r < 0.86: ops.append("\x1f".join(["m" + k] + items))
-            else: ops.append("\x1f".join(["h" + k] + items))
+            else: ops += ["R" + k, "\x1f".join(["h" + k] + items)]          # the holder changes the object a read has just returned
         dq = dict(d)                                       # oracle verdicts also for the items the operations may put into converted lists
         for k, its in extra.items():
             if its: dq[k] = (list(dq[k]) if isinstance(dq.get(k), list) else []) + its
-        protos.append(("heap", "m.heap", ["F"] + enc_dict(d), dq, ops))
+        protos.append(("heap", "m.heap", ["T" if rng.random() < 0.4 else "F"] + enc_dict(d), dq, ops))
+    for val in ("F", "T"):          # the dict-valued field, lazy and validated object
+        d = {"metadata_version": "2.4", "name": "n", "version": "1", "project_urls": {"Home": "http://x"}}
+        J = "\x1f".join
+        for ops in (["Rproject_urls", J(["uproject_urls", "Docs", "u"]), "Rproject_urls", J(["gproject_urls", "A", "", "B", "b"]), "Rproject_urls"],
+                    [J(["uproject_urls"]), "Rproject_urls", J(["gproject_urls", "Home", "h"])], ["Rproject_urls", J(["gproject_urls", "x", "y"]), "Rproject_urls"]):
+            protos.append(("heap", "m.heap", [val] + enc_dict(d), d, ops))
     for k in LIST_F:          # every list field: change in place before / after the first read, by the caller / the holder; rebind; delete
         good = ITEMS[k][0] if k in ITEMS else PLAIN_S
         v0, v1, v2 = [good[0]], [good[0], good[1]], [good[2]]
@@ -341,7 +353,13 @@ def streams(rng, tier):
         for ops in (["R" + k, J(["m" + k] + v1), "R" + k, J(["h" + k] + v2), "R" + k, J(["a" + k] + v1), "R" + k, "d" + k, "R" + k],
                     [J(["m" + k] + v1), "R" + k, J(["a" + k] + v2), J(["m" + k] + v0), "R" + k],
                     ["d" + k, "R" + k, J(["h" + k] + v1), "R" + k], [J(["h" + k] + v1), J(["a" + k] + v2), "R" + k]):
-            protos.append(("heap", "m.heap", ["F"] + enc_dict(d), dq, ops))
+            for val in ("F", "T"):
+                if val == "T" and ops[0][:1] == "h": continue          # the holder can only change an object that a read returned
+                protos.append(("heap", "m.heap", [val] + enc_dict(d), dq, ops))
+    # 5f. the oracles instantiated with the component MODELS (the model of C17_accept_iff_models): a sample of the m.from_raw cases again
+    mr = [p for p in protos if p[1] == "m.from_raw" and p[0] in ("random", "mutation", "pool-values", "sizes", "sweep-field-version", "escape-deep")]
+    sample = mr if not q else rng.sample(mr, min(len(mr), 1500)) + [p for p in mr if p[0] in ("sizes", "escape-deep")]
+    protos += [("models", "m.from_raw_models", head, d, tail) for (_, _, head, d, tail) in sample]
     cases = attach_oracles(protos)
 
     # 6. from_email: documents -> parse_email (implementation) -> (raw, unparsed) tokens -> model of from_email
@@ -425,7 +443,7 @@ def match_c17_d10(case, impl, model):
     digit limit) but the code reports the Version field as invalid (InvalidMetadata since fix 71d4b23; a bare ValueError escaped before).
     Instance = such a run in the input AND the implementation names 'version' among the offending fields (or refuses the read) where the
     model does not."""
-    if case.cmd not in ("m.from_raw", "m.from_email", "m.from_email_doc") or not _has_run(case, 4301) or impl == model: return False
+    if case.cmd not in ("m.from_raw", "m.from_email", "m.from_email_doc", "m.from_raw_models") or not _has_run(case, 4301) or impl == model: return False
     return isinstance(impl, str) and not impl.startswith("!EXC") and "version" in impl and "version" not in str(model).split("|")[0]
 
 
@@ -433,11 +451,19 @@ def match_c17_deep(case, impl, model):
     """A Requires-Dist marker nested deeper than the interpreter's recursion limit allows: RecursionError escapes instead of InvalidMetadata.
     Instance = a Requires-Dist entry with more than 400 consecutive '(' AND exactly RecursionError escapes AND the model predicts that
     escape from the oracle table (Requirement itself raised RecursionError on that entry)."""
+    deep = any(a.startswith("I") and "(" * 401 in a for a in case.args)
+    if case.cmd == "m.from_raw_models":          # the Requirement MODEL has no recursion limit: it accepts the entry, so no escape is predicted
+        return impl == "!EXC:RecursionError" and deep
     return (case.cmd in ("m.from_raw", "m.from_email", "m.from_email_doc") and impl == "!EXC:RecursionError"
-            and any(a.startswith("I") and "(" * 401 in a for a in case.args) and _model_predicts_escape(impl, model))
+            and deep and _model_predicts_escape(impl, model))
+
+
+MODEL_OUTSIDE = ("!EXC:outside-ReqModel", "!EXC:interpreter-dependent", "!EXC:KeyError")
 
 
 def compare(case, impl, model):
+    if case.cmd == "m.from_raw_models" and isinstance(model, str) and any(t in model.split("|") for t in MODEL_OUTSIDE):
+        return None          # a component MODEL declares the value outside itself (marker literal with a backslash, licence nesting 101..200)
     if impl.startswith("!EXC"):
         return ("an exception other than ExceptionGroup/InvalidMetadata escapes: " + impl +
                 ("" if _model_predicts_escape(impl, model) else " (and the model does not predict it from the component verdicts)"))
